@@ -70,6 +70,111 @@ CHECKS = {
         "'elapsed carries the elapse time' is proved per modelled component under C09/C07, monitored for the rest.",
    technique="Coq proof over models of play(), timer and operation handlers + clock correspondence evaluated in Coq",
    design="7 C06"),
+ "C07": dict(
+   text="Coq theorems over the hand-written executable model of component/entity.py, trait/impl.py and the 16 stateful classes of "
+        "component/common (Model/Comp.v): for every class, reducer, parameters, state and payload except StackableBuffSkillComponent.use, "
+        "a result containing a rejection is exactly [reject] and returns the input state (C07_reject_alone); the ignore_rejected variant is "
+        "silent; using a skill that is not ready is a no-op; the dispatcher never acknowledges a rejected action. StackableBuffSkillComponent.use "
+        "as shipped is refuted with a witness (open known finding) and its largest true part is proved. The model is compared in Coq with the "
+        "real reducers (full output state, event list, views) on random, reachable and shipped instances on every run.",
+   note="Trusted: Coq kernel/vm_compute; the correspondence harness (tools/lib/h_entity.py); tick-valued time; the 47 job-specific classes are "
+        "not modelled - the property is tested on every installed component of all jobs in reachable states (exploration, not proof).",
+   technique="Coq proof (case analysis over all modelled reducers) over a hand-written executable model + Coq-evaluated correspondence with the real reducers + implementation-side search on all installed components",
+   design="7 C07"),
+ "C09": dict(
+   text="Coq theorems: for every well-formed state and all a, b >= 0, elapse a then b equals elapse a+b for the Periodic scheduler, the "
+        "Consumable stack regeneration, the Keydown generator and the mob's DOT tracker (entity models faithful to component/entity.py and "
+        "common/mob.py), and for 15 of the 16 stateful common component classes: damage events are a permutation (same names, values, hits), "
+        "final states agree up to the dead interval counter of an expired schedule, hence all views agree; well-formedness is an invariant of "
+        "every reducer, so this holds in every reachable state; every elapsed notification carries the elapse time. Model compared in Coq "
+        "with the real code on every run.",
+   note="Trusted: as C07. Integer ticks (exactly representable times, as the property's own quantifier restricts). Not proved: the capped "
+        "loop of HitLimitedPeriodicDamageComponent and the job-specific classes (two-execution comparison on the implementation only).",
+   technique="Coq proof (strong induction on the first chunk, invariants, permutation lemmas) over hand-written executable models + Coq-evaluated correspondence + implementation-side two-execution search",
+   design="7 C09"),
+ "C10": dict(
+   text="Coq theorems over Model/Comp.v: validity never reports a negative remaining time; for every modelled class except key-down skills, "
+        "whenever validity reports the skill usable, use returns no rejection (all parameters, states); key-down skills: the same under the "
+        "invariant kd_inv, which is preserved by use/elapse/stop when the applied cooldown is at least the maximum key-down time, and a "
+        "machine-checked counterexample without that condition (open known finding: a shipped cooldown-free key-down skill). Views of the "
+        "model are compared in Coq with the real view methods on every run; totality of the Python views is tested, not proved.",
+   note="Trusted: as C07. 'Views never raise' and well-formedness of the aggregated buff are explored on all jobs (every view of every installed "
+        "component in reachable states), not proved.",
+   technique="Coq proof over a hand-written executable model of views and use + Coq-evaluated correspondence + implementation-side search (validity vs use on every installed component)",
+   design="7 C10"),
+ "C13": dict(
+   text="19 Coq theorems: the two-pointer scan REGENERATED from report/feature.py on every run equals the exhaustive search (for each start the "
+        "shortest window whose span reaches L, first strict maximum) for all L > 0 and all non-decreasing clock lists; reported indices "
+        "reproduce the value; with non-negative damages the shortest window is the least among windows of at least L from a start; L <= 0 "
+        "raises; report identities over Q for all runs: total = sum of per-action = sum of per-skill damages, shares non-negative and sum to "
+        "1, DPM definition, each damage/DOT event contributes exactly once (none for zero damage or zero hits) with the buff in force.",
+   note="Trusted: Coq kernel; translator tools/tr_window.py; the report model is hand-written and tied by correspondence; binary64 rounding "
+        "outside the model; the literal reading 'maximum over ALL windows of at least L' is refuted by a witness and documented (the whole "
+        "run would always win); damage formula and Stat addition are parameters (C12, C11).",
+   technique="Coq proof (loop invariant on 2n+2 fuel; ring/field/lra) over a model generated from the source (translator) + Coq-evaluated correspondence + exhaustive small-sequence search on the implementation",
+   design="7 C13"),
+ "C14": dict(
+   text="26 Coq theorems over a layout-aware token model of the plan grammar, tied to the source by a translator that regenerates the Lark "
+        "grammar, the TreeToOperation templates and the API render/split code as data which Coq proves equal to the model's (vm_compute): "
+        "parse(print cs) = cs for all non-empty command lists with finite times; xN replicates N times for every integer N; the parse is "
+        "invariant under every layout the grammar's gap rule accepts; header/body split round trip; character-level round trips of "
+        "strings, words and numbers. The unrestricted statements are refuted with witnesses (four open known findings: inf time, last-line "
+        "comment, trailing newline, consecutive comment lines).",
+   note="Trusted: Coq kernel; translator tools/tr_grammar.py; Lark's Earley parser, float repr and YAML are covered by correspondence "
+        "(Lark vs model on grammar-generated plans), not modelled; 'executing the re-parsed plan gives the same result' is tested only.",
+   technique="Coq proof over a token/layout model + generated grammar/template tie (translator -> vm_compute equality) + Coq-evaluated correspondence with Lark on generated plans",
+   design="7 C14"),
+ "C15": dict(
+   text="44 Coq theorems: the arithmetic grammar and the CalcTransformer action table REGENERATED from spec/_math.py equal the model's; "
+        "parse(print e) = e for every expression tree, so precedence, left associativity, unary minus and parentheses are corollaries "
+        "(stated for arbitrary subexpressions and as value identities over Q); // is floor division, min/max/ceil/floor, variables, digit "
+        "separators; the document traversal of DFSTraversePatch/ArithmeticPatch replaces every {{e}} value, list element and scalar-valued "
+        "key by eval e at any depth (also when 0); the full statement incl. container-valued keys is refuted with a witness (open known "
+        "finding). Store immutability: by construction in the model, carried by the correspondence harness on all shipped specs.",
+   note="Trusted: Coq kernel; translator tools/tr_mathgrammar.py; Lark lexing/Earley parsing and binary64 arithmetic tested against the model "
+        "(rounding-noise rule), not proved; mutation of Python objects is observable only by the harness (deep dumps before/after).",
+   technique="Coq proof (round-trip for all trees; structural induction on documents) + generated grammar/action tie + Coq-evaluated correspondence with evaluate_expression and Patch.apply + independent ast reference evaluator",
+   design="7 C15"),
+ "C17": dict(
+   text="15 Coq theorems about the star-force model REGENERATED from gear/improvements/starforce*.py and blueprint/gear_blueprint.py on every "
+        "run (tables, band scan, max_star, per-star increment, fold, cutoff, build composition): for all metas with req_level >= 0 and all "
+        "non-negative reference stats the increment is defined and non-negative up to the cap, the bonus is the fold of increments each "
+        "computed on the gear as enhanced so far, hence monotone; a star beyond the cap is refused; cutoff = min(star, cap); build = base + "
+        "traces/scrolls + star force on the scrolled gear + bonus + exceptional in any commutative monoid and for the generated Stat algebra.",
+   note="Trusted: Coq kernel; translator tools/tr_starforce.py (validated against the implementation and a hand-written reference model on "
+        "every case); 'building never alters the blueprint or base gear' is object mutation: tested by deep dumps, not provable in a functional model.",
+   technique="Coq proof (induction over the star fold, table facts by vm_compute, abstract monoid theorem) over a model generated from the source + three-way Coq-evaluated correspondence",
+   design="7 C17"),
+ "C18": dict(
+   text="10 Coq theorems over an executable model of the whole bonus inference (greedy single-valued options, decomposition + combinations with "
+        "the cumulative decrement as coded, recursive search over the bitmask candidate table): for all gears (req_level >= 0, boss or not, "
+        "any attack table) and all observed stats, a returned list has at most 4 options of distinct kinds with valid grades summing exactly "
+        "to the observed stat (soundness), and whenever the stat is such a sum the inference does not reject (completeness); the model's "
+        "tables equal the tables REGENERATED from the source (vm_compute) and the real candidate table is complete.",
+   note="Trusted: Coq kernel; translator tools/tr_bonus.py (runs the tree's own table builders); hypotheses: integer-valued observed stats with "
+        "non-negative single-valued fields; binary64 ceil of the weapon attack formula equals its exact reading (checked on all weapon gears).",
+   technique="Coq proof (induction on the search budget; finite table facts by vm_compute over regenerated tables) + Coq-evaluated differential run against BonusCalculator.compute",
+   design="7 C18"),
+ "C19": dict(
+   text="39 Coq theorems over an executable model of StepwizeOptimizer, the step iterator and the weapon-potential brute force, for all value/cost "
+        "functions, maxima, budgets, start states: every visited state is within budget, within per-slot limits and >= the start state; "
+        "termination; local optimality at termination; determinism; the iterator yields each multiset of <= min(depth,4) increments exactly "
+        "once; never-worse under 'value does not fall along a legal step' (the unconditional form is refuted: rewards above -1 are accepted); "
+        "weapon potential result is the arg-max over legal combinations and pruning is safe under a stated replacement hypothesis; clone() of "
+        "the four targets forwards every constructor parameter (table REGENERATED from the source, vm_compute obligation).",
+   note="Trusted: Coq kernel; translator tools/tr_fields.py; objectives of the real targets are abstract (their monotonicity/positivity monitored "
+        "on real runs); PresetOptimizer orchestration not modelled.",
+   technique="Coq proof over a hand-written executable model + Coq-evaluated correspondence with the real StepwizeOptimizer on table targets + generated clone-table obligation + implementation-side monitoring on the real targets",
+   design="7 C19"),
+ "C20": dict(
+   text="17 Coq theorems: for every request sequence, every environment returned through a memoizer (hit or miss, in-memory or file-backed, "
+        "across export/import) equals the directly computed one; the independent part always comes from the current request; provider kinds "
+        "never share entries; the code-dependent facts (fields read by the memoized part are key fields, key = all fields minus the excluded "
+        "ones, class name in the key) are REGENERATED from the source on every run and proved by vm_compute.",
+   note="Trusted: Coq kernel; translator tools/tr_memo.py; sha256/JSON key injectivity and serialisation round trips are hypotheses tested on "
+        "every history; file system atomicity and concurrent writers outside the model (partial).",
+   technique="Coq proof (invariant over request histories) over a hand-written model + generated field-set obligations (translator) + Coq-evaluated hit-trace correspondence with the real memoizers",
+   design="7 C20"),
 }
 
 NOT_APPLICABLE = {}
